@@ -271,3 +271,24 @@ def K_dict_units(f1, f2, us):
         if (d["space"], d["time"], d["quantity"]) != (3, 0, -1):
             return False
     return True
+
+
+def digit_labels_ok(k, c1, c2, spaced):
+    """labels permitted by the label rules may START with a digit ("3PG", "13BPG", "2", "12"): in the text form the coefficient is
+    the leading integer SEPARATED from the label by a blank; a term without such a blank is a label (coefficient 1)"""
+    labs = [("3PG", "13BPG"), ("2", "12"), ("2x", "A"), ("1A", "1")][k]
+    sep = " " if not spaced else "  "
+    def term(c, l):
+        return l if c == 1 else "%d%s%s" % (c, sep, l)
+    eq = "%s + %s -> %s" % (term(c1, labs[0]), term(c2, labs[1]), labs[0])
+    r = Reaction(eq, kf=1.0)
+    labels = [labs[0], labs[1], "other"]
+    want_s = [c1, c2, 0]
+    want_p = [1, 0, 0]
+    if r.ssto(labels) != want_s or r.psto(labels) != want_p or r.order() != c1 + c2:
+        return False
+    back = Reaction(r.to_string(), kf=1.0)
+    if back.ssto(labels) != want_s or back.psto(labels) != want_p:
+        return False
+    d = Reaction([{labs[0]: c1, labs[1]: c2}, {labs[0]: 1}], kf=1.0)
+    return Reaction(d.to_string(), kf=1.0).ssto(labels) == want_s
